@@ -187,6 +187,21 @@ pub fn c01(c: &mut Ctx, b: &Budget) {
         for a in &order2 { e2 = c.assign(&format!("add {} {}", e2, a)); }
         let e2 = c.assign(&format!("replace_subject {} {}", e2, s));
         let e3 = c.assign(&format!("recode {}", e1));
+        // routes 4 and 5: the other adding doors (the `*_salted` family with `salted = false`, one by one and as a batch), every assertion
+        // given twice - the second time through another door or as its elided twin: a digest the node already holds adds nothing
+        let mut e4 = s.clone();
+        for (k, a) in order2.iter().enumerate() {
+            e4 = c.assign(&format!("{} {} {}", ["add", "add_env_unsalted"][k % 2], e4, a));
+            let twin = if k % 3 == 2 { c.assign(&format!("elide {}", a)) } else { a.clone() };
+            e4 = c.assign(&format!("{} {} {}", ["add_env_unsalted", "add"][k % 2], e4, twin));
+        }
+        let e5 = c.assign(&format!("add_many_unsalted {} {}", s, [order1.clone(), order2.clone()].concat().join(",")));
+        observe_env(c, &e4, true);
+        observe_env(c, &e5, true);
+        if let (Some(x), Some(v), Some(w)) = (c.env(&e1), c.env(&e4), c.env(&e5)) {
+            c.check("route-independent", shape(&x) == shape(&v) && shape(&x) == shape(&w), "route-independent", || format!("doors: {} vs one by one through the other doors, each twice {} vs as a batch with repeats {}", shape(&x), shape(&v), shape(&w)));
+            for e in [&v, &w] { let r = check_spec_digests(e); c.check("spec-digest", r.is_ok(), "spec-digest", || r.unwrap_err()); }
+        }
         observe_env(c, &e1, true);
         observe_env(c, &e2, true);
         if let (Some(x), Some(y), Some(z)) = (c.env(&e1), c.env(&e2), c.env(&e3)) {
